@@ -75,16 +75,34 @@ var c18SQL = map[string]string{
 
 func (c18) Gen(rng *rand.Rand, tier string, idx int) Case {
 	var c Case
-	if (tier == "thorough" && idx%10 == 9) || (tier != "thorough" && idx%26 == 25) {
+	if idx%97 == 5 {
+		// Execute that fails AFTER the stream was built (the WHERE text passes the SQL parser but does not compile as a
+		// filter): whatever Execute started must be torn down by the Stop that follows
+		c.Cfg = [][]string{{"async"}, {"sync"}, {"qcap", "1"}, {"calls", "0"}, {"adds", "0"}, {"strat", "drop"},
+			{"where", hx([]string{"a matches '['", "a > 1 AND", "(a > 1"}[rng.Intn(3)])}}
+		c.Ops = [][]string{{"failexec"}}
+		c.Stat = append(c.Stat, "execute-fails-after-build")
+		return c
+	}
+	if (tier == "thorough" && idx%10 == 9) || (tier != "thorough" && idx%13 == 12) {
 		// free-running stress over the query kinds (search only, DESIGN §3.5); a few rounds in the quick tier too
 		kind := c18Kinds[(idx/10)%len(c18Kinds)]
+		strat := []string{"drop", "block", "expand"}[rng.Intn(3)]
+		asyncs := c18kinds(rng, rng.Intn(3), true)
+		syncs := c18kinds(rng, 1+rng.Intn(2), true)
 		if tier != "thorough" {
-			kind = c18Kinds[(idx/26)%len(c18Kinds)]
+			// the quick tier walks a fixed table first (every kind once, with the strategy / sink that stresses it), then random
+			k := idx / 13
+			kind = c18Kinds[k%len(c18Kinds)]
+			if k < len(c18Kinds) {
+				strat = []string{"drop", "expand", "drop", "block", "expand", "drop", "block", "block", "drop", "block"}[k]
+				if kind == "cep" {
+					syncs = []string{"adds", "plain"} // a re-entrant sink that is handed the matches flushed by Stop
+				}
+			}
 		}
-		c.Cfg = [][]string{append([]string{"async"}, c18kinds(rng, rng.Intn(3), true)...),
-			append([]string{"sync"}, c18kinds(rng, 1+rng.Intn(2), true)...),
-			{"qcap", strconv.Itoa(1 + rng.Intn(3))}, {"calls", "0"}, {"adds", "0"},
-			{"strat", []string{"drop", "block", "expand"}[rng.Intn(3)]}}
+		c.Cfg = [][]string{append([]string{"async"}, asyncs...), append([]string{"sync"}, syncs...),
+			{"qcap", strconv.Itoa(1 + rng.Intn(3))}, {"calls", "0"}, {"adds", "0"}, {"strat", strat}}
 		c.Ops = [][]string{{"free", kind, strconv.Itoa(40 + rng.Intn(160))}}
 		c.Stat = append(c.Stat, "sched-free-running", "kind-"+kind)
 		return c
@@ -349,7 +367,11 @@ func c18free(c Case, kind string, n int, base0 int) ([][]string, string) {
 		// block without a timeout and a buffer of two: producers are parked inside Emit most of the time, also when
 		// Stop arrives — Stop must release them
 		perf.BufferConfig.DataChannelSize = 2
+		// … and back-pressure all the way: a window output buffer of one batch and slow synchronous sinks park the
+		// data processor inside Window.Add when Stop arrives
+		perf.BufferConfig.WindowOutputSize = 1
 	}
+	slowSync := perf.OverflowConfig.Strategy == "block"
 	base := runtime.NumGoroutine()
 	if base0 >= 0 {
 		// a re-run after a suspected leak: measured against the count before the FIRST run — a goroutine that run
@@ -371,6 +393,9 @@ func c18free(c Case, kind string, n int, base0 int) ([][]string, string) {
 				id = c19asInt(res[0]["id"])
 			}
 			add("sink", strconv.Itoa(id))
+			if slowSync {
+				time.Sleep(300 * time.Microsecond)
+			}
 			switch sk {
 			case "panics":
 				panic("sink panic (harness)")
@@ -394,7 +419,11 @@ func c18free(c Case, kind string, n int, base0 int) ([][]string, string) {
 		f()
 	}
 	row := func(id int) map[string]interface{} {
-		return map[string]interface{}{"id": id, "k": []string{"a", "b"}[id%2], "v": id%3 - 1, "ts": int64(id)}
+		v := id%3 - 1
+		if kind == "cep" && id%14 != 0 {
+			v = 1 // long runs of A: a match is still open when Stop arrives and is delivered by Stop's flush
+		}
+		return map[string]interface{}{"id": id, "k": []string{"a", "b"}[id%2], "v": v, "ts": int64(id)}
 	}
 	half := make(chan struct{})
 	var sent int64
@@ -455,7 +484,18 @@ func c18free(c Case, kind string, n int, base0 int) ([][]string, string) {
 			guard(sn, func() { ssql.Stop() })
 		}(sn)
 	}
-	swg.Wait()
+	stopped := make(chan struct{})
+	go func() { swg.Wait(); close(stopped) }()
+	select {
+	case <-stopped:
+	case <-time.After(20 * time.Second):
+		// Stop has a grace period of 5 s: a Stop call that is still running after 20 s never returns
+		add("stuck", "stop-never-returned")
+		mu.Lock()
+		out := append([][]string{}, log...)
+		mu.Unlock()
+		return out, "deadlock"
+	}
 	// both Stop calls have returned: from here on no sink may run
 	add("th", "s0", "stop.flag")
 	add("th", "s0", "fin")
@@ -511,7 +551,31 @@ func c18free(c Case, kind string, n int, base0 int) ([][]string, string) {
 	return out, why
 }
 
+// c18failExec: Execute returns an error; Stop must leave no goroutine of the half-built instance behind.
+func c18failExec(c Case) [][]string {
+	where := "a >"
+	if v := c19cfgGet(c, "where"); len(v) > 0 {
+		where = unhx(v[0])
+	}
+	base := runtime.NumGoroutine()
+	ssql := streamsql.New(streamsql.WithDiscardLog())
+	err := ssql.Execute("SELECT id FROM stream WHERE " + where)
+	ssql.Stop()
+	out := [][]string{{"execute", map[bool]string{true: "error", false: "ok"}[err != nil]}}
+	deadline := time.Now().Add(8 * time.Second)
+	for runtime.NumGoroutine() > base && time.Now().Before(deadline) {
+		time.Sleep(time.Millisecond)
+	}
+	if n := runtime.NumGoroutine() - base; n > 0 {
+		out = append(out, []string{"goroutines-left", strconv.Itoa(n)})
+	}
+	return out
+}
+
 func (c18) Exec(c Case) [][][]string {
+	if len(c.Ops) == 1 && c.Ops[0][0] == "failexec" {
+		return [][][]string{c18failExec(c)}
+	}
 	if len(c.Ops) == 1 && len(c.Ops[0]) == 3 && c.Ops[0][0] == "free" {
 		n, _ := strconv.Atoi(c.Ops[0][2])
 		base0 := runtime.NumGoroutine()
